@@ -22,6 +22,15 @@ fn main() {
     if id == "C05-family" {
         std::process::exit(checks::c05::family_child(&args[2], args[3].parse().unwrap()));
     }
+    if id == "C17-driver" {
+        let tier = if args[2] == "thorough" { Tier::Thorough } else { Tier::Quick };
+        std::process::exit(checks::c17::driver(tier, &args[3]));
+    }
+    if id == "C17-compare" {
+        let tier = if args[2] == "thorough" { Tier::Thorough } else { Tier::Quick };
+        let files: Vec<(String, String)> = ["base", "sync", "spec", "spec-sync"].iter().map(|c| (c.to_string(), format!("{}/{}.txt", args[3], c))).collect();
+        std::process::exit(checks::c17::run(tier, &files));
+    }
     if id == "C13-first" {
         std::process::exit(checks::c13::first_child(args[2].parse().unwrap()));
     }
